@@ -310,7 +310,8 @@ namespace awkward {
 
   const ContentPtr
   Record::num(int64_t axis, int64_t depth) const {
-    int64_t posaxis = axis_wrap_if_negative(axis, depth);
+    // the axis is applied to array_[at:at+1]: its dimensions are the ones to count
+    int64_t posaxis = array_.get()->axis_wrap_if_negative(axis, depth);
     if (posaxis == depth) {
       throw std::invalid_argument(
         std::string("cannot call 'num' with an 'axis' of 0 on a Record")
@@ -416,7 +417,8 @@ namespace awkward {
 
   const ContentPtr
   Record::localindex(int64_t axis, int64_t depth) const {
-    int64_t posaxis = axis_wrap_if_negative(axis, depth);
+    // the axis is applied to array_[at:at+1]: its dimensions are the ones to count
+    int64_t posaxis = array_.get()->axis_wrap_if_negative(axis, depth);
     if (posaxis == depth) {
       throw std::invalid_argument(
         std::string("cannot call 'localindex' with an 'axis' of 0 on a Record")
@@ -441,7 +443,8 @@ namespace awkward {
       throw std::invalid_argument(
         std::string("in combinations, 'n' must be at least 1") + FILENAME(__LINE__));
     }
-    int64_t posaxis = axis_wrap_if_negative(axis, depth);
+    // the axis is applied to array_[at:at+1]: its dimensions are the ones to count
+    int64_t posaxis = array_.get()->axis_wrap_if_negative(axis, depth);
     if (posaxis == depth) {
       throw std::invalid_argument(
         std::string("cannot call 'combinations' with an 'axis' of 0 on a Record")
